@@ -79,6 +79,8 @@ pub fn run(env: &mut Env) -> Outcome {
         let hist_before = s.world.server.borrow().history.len();
         let bitmaps_before = s.bitmaps.len();
         let mut sent_rects = 0usize;
+        // the letters this step delivers, in order (more than one when PDUs share a payload and both matter)
+        let mut letters_applied: Vec<usize> = vec![letter];
         {
             let mut srv = s.world.server.borrow_mut();
             match letter {
@@ -112,7 +114,20 @@ pub fn run(env: &mut Env) -> Outcome {
                     srv.send_data_pdu("unknown-data-pdu", t, &w)
                 }
                 8 => {
-                    if states == vec![St::Active] && ctxrc.borrow_mut().chance("coalesce_deactivate", 1, 3) {
+                    if states == vec![St::Active] && ctxrc.borrow_mut().chance("deactivate_and_demand_active_in_one_payload", 1, 6) {
+                        // the active state reads every share-control PDU of a payload: the demand-active of the next
+                        // activation may follow its deactivate-all directly
+                        let old = srv.current_share_id;
+                        da_count += 1;
+                        share_id = params.share_id.wrapping_add(da_count * 0x10001);
+                        let dea = build::deactivate_all_raw(&srv.p, old);
+                        let da = build::demand_active_raw(&srv.p, share_id);
+                        srv.current_share_id = share_id;
+                        srv.share_ids.push(share_id);
+                        srv.send_coalesced("deactivate-all+demand-active", &[dea, da]);
+                        letters_applied.push(0);
+                        ctxrc.borrow_mut().probe("deactivate_all_and_demand_active_in_one_payload");
+                    } else if states == vec![St::Active] && ctxrc.borrow_mut().chance("coalesce_deactivate", 1, 3) {
                         let sid = srv.current_share_id;
                         let other = build::share_data_raw(&srv.p, sid, 0x2f, &build::set_error_info_payload(0));
                         let dea = build::deactivate_all_raw(&srv.p, sid);
@@ -169,9 +184,21 @@ pub fn run(env: &mut Env) -> Outcome {
             }
         }
         let mut next: Vec<St> = Vec::new();
-        for st in &states {
-            for (n, emits) in model(*st, letter) {
-                if emits == emitted_final && !next.contains(&n) {
+        {
+            // (state, has emitted a finalization so far) through the letters of this step
+            let mut cands: Vec<(St, bool)> = states.iter().map(|s| (*s, false)).collect();
+            for l in &letters_applied {
+                let mut nx: Vec<(St, bool)> = Vec::new();
+                for (st, em) in &cands {
+                    for (n, emits) in model(*st, *l) {
+                        if *em && emits { continue; }
+                        if !nx.contains(&(n, *em || emits)) { nx.push((n, *em || emits)); }
+                    }
+                }
+                cands = nx;
+            }
+            for (n, em) in cands {
+                if em == emitted_final && !next.contains(&n) {
                     next.push(n);
                 }
             }
